@@ -1,6 +1,7 @@
 import DigModel.Proofs.DfsTotal
 import DigModel.Proofs.Termination
 import DigModel.Proofs.Views
+import DigModel.Proofs.GhBoundApi
 /-
   C05 — Cycle safety, graph part (internal/graph/graph.go, full strength, any graph size):
 
@@ -111,6 +112,24 @@ theorem C05_check_reads_graph_only {a b : St} (h : GraphSame a b) (s : Nat) : ch
 example : isAcyclic (fun u => if u = 0 then [1] else if u = 1 then [2] else if u = 2 then [0] else []) 3 = .cycle [0, 1, 2, 0] := by decide
 example : isAcyclic (fun u => if u = 0 then [1] else if u = 1 then [2] else []) 3 = .ok [2, 1, 0] := by decide
 
+/-- in every reachable container, in every scope, the acyclicity check *decides*: it answers "acyclic" or names a
+    cycle; it never indexes outside the scope's graph holder and never exceeds its recursion budget
+    (`OB`: recorded orders stay inside the holder they were recorded for, through Provide, its roll-back, Decorate,
+    Scope's copy of the parent's holder, Invoke's parse) -/
+theorem C05_check_decides (p : Program) (s : Nat) :
+    checkAcyclic (runProgram p).1 s = .acyclic ∨ ∃ path, checkAcyclic (runProgram p).1 s = .cycle path := by
+  have h := checkAcyclic_total (program_safeInv p).ob s
+  cases hc : checkAcyclic (runProgram p).1 s with
+  | acyclic => exact Or.inl rfl
+  | cycle path => exact Or.inr ⟨path, rfl⟩
+  | outOfRange => exact absurd hc h.1
+  | fuel => exact absurd hc h.2
+
+/-- no history crashes the process inside dig: no operation of any program ends in a panic of dig's own -/
+theorem C05_no_crash (p : Program) : ∀ r ∈ (runProgram p).2, r.v ≠ .panicDig := program_never_panics p
+
+#print axioms C05_check_decides
+#print axioms C05_no_crash
 #print axioms C05_dfs_sound
 #print axioms C05_path
 #print axioms C05_dfs_total
